@@ -28,6 +28,8 @@ of Model/FanOutConc.lean). One thread per role:
                                               rSeq2   acknowledgedSeq.Store; two PutUint64; Unlock
                                               rUnlock
   producer   queue.Put                        put     (the queue's own mutex: one step for the positions)
+  rewinder   consumerGroup.SetConsumedSeq     wSet    Lock; consumedSeq.Store; PutUint64; Unlock   (round 12;
+                                                      target inside [ack, appended], else it is a reset)
 
 A step that acquires a lock is merged with the loads that follow it (nothing another thread can do
 in between is distinguishable from doing it before the acquisition).
@@ -126,6 +128,7 @@ inductive MOp
   | sLock | sVisit (g : Nat) | sSet
   | put
   | rQueue (n : Int) | rSeq1 (g : Nat) | rSeq2 | rUnlock
+  | wSet (g : Nat) (n : Int)
   deriving DecidableEq, Repr
 
 /-- steps of the explicit index reset -/
@@ -261,6 +264,19 @@ def mstep (sp : Shape) (ms : MState) : MOp → Option MState
     match ms.r with
     | .rq _ vis => if ms.sh.names.all (fun k => vis.contains k) then some { ms with r := .idle } else none
     | _ => none
+  | .wSet g n =>
+    -- consumerGroup.SetConsumedSeq by a further goroutine (the replicators' rewind / re-consume):
+    -- lock4headSeq.Lock; consumedSeq.Store(n); PutUint64(consumed offset); Unlock — one step (exclusive
+    -- lock around both; the only lock-free reader of consumedSeq is Consume's head load (A), which sees
+    -- the new value before or after the PutUint64 alike; nobody reads the page lock-free).
+    -- Enabled for a target inside [ack, appended] only: outside it the call is an explicit reset.
+    match ms.sh.grp g, ms.sh.pg g with
+    | some x, some m =>
+      if ms.c.holds g || ms.a.holds sp g || ms.r.holds g then none
+      else if x.ack ≤ n ∧ n ≤ ms.sh.appended then
+        some { ms with sh := (ms.sh.setGrp g { x with consumed := n }).setPg g { m with consumed := n } }
+      else none
+    | _, _ => none
 
 /-- a schedule: every step must be enabled -/
 def mrun (sp : Shape) : MState → List MOp → Option MState
